@@ -317,6 +317,18 @@ func runC20(st *ev.Stats, c C20Case) string {
 			}
 			tr, _ := rr.RunBlock(h.Blocks[i], &blocks[i])
 			if ok, why := tr.Equal(traces[i]); !ok {
+				if os.Getenv("VERIF_DEBUG") != "" {
+					// re-run the history without a restart up to this block and show which store entries differ
+					cn := chain.NewNode(hOpts(h))
+					cr := newHRunner(cn)
+					for j := 0; j <= i; j++ {
+						cr.RunBlock(h.Blocks[j], &blocks[j])
+					}
+					fmt.Printf("DEBUG C20 traces: continuous(original) %+v\n  restarted %+v\n", traces[i].Txs, tr.Txs)
+					for _, d := range chain.DiffStores(cn.DumpStores(), rn.DumpStores()) {
+						fmt.Printf("DEBUG C20 store diff (continuous vs restarted) %s\n", trunc(d.String()))
+					}
+				}
 				key := "divergence-after-restart"
 				if strings.Contains(why, "events-only") {
 					key = "events-only-after-restart"
